@@ -1,23 +1,25 @@
 """C03 -- one HCI command outstanding; every command is answered exactly once.
 
 Controller side (bumble/controller.py), profile 'skeleton': for this property only *how many* Command Complete /
-Command Status events carrying the command's opcode leave through `Controller.send_hci_packet` matters, on every
-path of every handler.  `send_hci_packet` is a recorded callback whose ghost effect counts
+Command Status events leave through `Controller.send_hci_packet`, and for which opcode, matters, on every path of
+every handler.  `send_hci_packet` is a recorded callback whose ghost effect maintains
 
-    ghost.replies  -- Command Complete/Status events whose command_opcode == ghost.op (the command being processed)
-    ghost.stray    -- Command Complete/Status events with any other opcode (must never happen)
+    ghost.replies    -- number of Command Complete / Command Status events sent so far
+    ghost.last_op    -- command_opcode of the last one;   ghost.last_kind -- Complete or Status
 
+("exactly one reply, for this opcode" == replies grew by one and last_op is the command's op-code).
 Everything is enumerated by reflection at import time, so a new command class or handler is picked up automatically:
 
-* one contract per `Controller.on_hci_*_command` handler (92 today, incl. the default `on_hci_command`): a handler of
-  an `HCI_SyncCommand` class returns return-parameters and sends nothing itself, a handler of an `HCI_AsyncCommand`
-  class returns None and sends exactly one Command Status with the command's opcode; no exception escapes.
-  Which kind a class is, is read from the real class hierarchy.
-* one contract on `Controller.on_hci_command_packet` per registered command class (197 today; its handler is used
-  through the handler contract above, classes without handler fall into the real default handler), per op-code that
-  has a name but no class (142 today) and one for all op-codes without class (generic `HCI_Command`): exactly one reply with
-  the command's opcode, no stray reply.
-* `Controller._send_hci_command_status` and `Controller.send_hci_packet` themselves.
+* one contract per `Controller.on_hci_*_command` handler (91 today + the default `on_hci_command`, which is verified
+  inlined into the dispatch): a handler of an `HCI_SyncCommand` class returns return-parameters and sends nothing
+  itself, a handler of an `HCI_AsyncCommand` class returns None and sends exactly one Command Status with the
+  command's opcode; no exception escapes.  Which kind a class is, is read from the real class hierarchy.
+* `Controller.on_hci_command_packet` for every registered command class (204 today incl. vendor classes; a class with
+  a handler uses the handler's contract, the others run the real default handler) and for a generic `HCI_Command`
+  with any other op-code (143 of them have a name): exactly one reply, carrying the command's opcode, of the kind the
+  host expects for the class.
+* `Controller._send_hci_command_status`, `Controller.send_hci_packet`, `Controller.__init__` (link attached).
+* the safety shadow of "every procedure accepted as pending is concluded" for the handlers of the named procedures.
 
 Host side (bumble/host.py), profile 'value': see the second half of this file.
 """
